@@ -189,6 +189,8 @@ theorem applyRes_rc (cfg : Cfg) (pol : Policy) (step : Nat) (tickEv : Ev) (dc : 
       · simp
   | addCollected buf ev =>
     simp only [applyRes]
+    split
+    · exact ⟨fun s => ⟨rfl, rfl⟩, rfl⟩
     split <;> (refine ⟨?_, rfl⟩; intro s; simp only [State.set]; split <;> (try rename_i h; subst h) <;> exact ⟨rfl, rfl⟩)
   | deleteCollected buf =>
     simp only [applyRes]
@@ -266,6 +268,8 @@ theorem applyRes_cmds_rc (cfg : Cfg) (pol : Policy) (step : Nat) (tickEv : Ev) (
         rcases hc with hc | hc <;> subst hc <;> trivial
   | addCollected buf ev =>
     simp only [applyRes]
+    split
+    · exact h
     split
     · apply app; intro c hc; simp only [List.mem_singleton] at hc; subst hc; trivial
     · exact h
